@@ -341,30 +341,29 @@ def _check_import_insertion(ctx, f, call, node_param):
     # the skip predicate as a table over statement kinds
     # walk the if/elif chain of the loop body
     def outcome(cls):
-        stmts_ = lp.body
-        while True:
-            if len(stmts_) >= 1 and isinstance(stmts_[0], ast.If):
-                st = stmts_[0]
-                v = _eval_skip(st.test, cls, cvar)
-                branch = st.body if v else st.orelse
-                if len(branch) == 1 and isinstance(branch[0], ast.Continue):
-                    return "skip"
-                if any(isinstance(x, ast.Expr) and x.value is call for x in branch):
-                    return "insert"
-                if len(branch) == 1 and isinstance(branch[0], ast.If):
-                    stmts_ = branch
+        # the loop body is walked for one statement kind: tests are decided by _eval_skip, `continue` / falling off the end is "skip",
+        # reaching the insertion is "insert"; guard clauses, if/elif chains and nested ifs are the same walk
+        def walk(stmts_):
+            for st in stmts_:
+                if isinstance(st, ast.If):
+                    v = _eval_skip(st.test, cls, cvar)
+                    r_ = walk(st.body if v else st.orelse)
+                    if r_ is not None:
+                        return r_
                     continue
-                if not branch:
-                    rest = stmts_[1:]
-                    if any(isinstance(x, ast.Expr) and x.value is call for x in rest):
-                        return "insert"
-                    if not rest or all(isinstance(x, (ast.Pass, ast.Continue)) for x in rest):
-                        return "skip"  # nothing else in the loop body: on to the next statement of the module
-                    raise AnalysisError("C10.2: import-placement chain has an unrecognised form")
-                raise AnalysisError("C10.2: import-placement chain has an unrecognised branch")
-            if any(isinstance(x, ast.Expr) and x.value is call for x in stmts_):
-                return "insert"
-            raise AnalysisError("C10.2: import-placement loop body has an unrecognised form")
+                if isinstance(st, ast.Continue):
+                    return "skip"
+                if isinstance(st, ast.Pass):
+                    continue
+                if isinstance(st, ast.Expr) and st.value is call:
+                    return "insert"
+                if isinstance(st, ast.Break):
+                    return "skip"  # nothing inserted for this statement (and none later): judged by the insertion rules above
+                raise AnalysisError("C10.2: import-placement loop body has an unrecognised form")
+            return None
+
+        r_ = walk(lp.body)
+        return "skip" if r_ is None else r_
 
     bad = []
     for label, cls, want_skip in STMT_KINDS:
